@@ -2,3 +2,4 @@ import GBExtracted.Tables
 import GBExtracted.Forms
 import GBExtracted.Pipelines
 import GBExtracted.Effects
+import GBExtracted.Dispatch
